@@ -111,8 +111,23 @@ func compileBatches(in io.Reader, codec *dnsdata.Codec, destPath string, opts Co
 		batchSize = DefaultBatchSize
 	}
 
-	limiter := make(chan struct{}, opts.BatchNumParallel)
-	defer close(limiter)
+	// BatchNumParallel 0 means unlimited: no limiter (an unbuffered one would block the first
+	// full batch forever, nothing receives from it before the send)
+	var limiter chan struct{}
+	if opts.BatchNumParallel > 0 {
+		limiter = make(chan struct{}, opts.BatchNumParallel)
+		defer close(limiter)
+	}
+	acquire := func() {
+		if limiter != nil {
+			limiter <- struct{}{}
+		}
+	}
+	release := func() {
+		if limiter != nil {
+			<-limiter
+		}
+	}
 
 	db, err = NewRDB(destPath)
 	if err != nil {
@@ -148,13 +163,13 @@ func compileBatches(in io.Reader, codec *dnsdata.Codec, destPath string, opts Co
 				counter = 0
 				log.Println(nw)
 				b := rdbBatch
-				limiter <- struct{}{}
+				acquire()
 				g.Go(func() error {
 					if err := db.ExecuteBatch(b); err != nil {
-						<-limiter
+						release()
 						return fmt.Errorf("error executing batch: %w", err)
 					}
-					<-limiter
+					release()
 					return nil
 				})
 				rdbBatch = db.CreateBatch()
